@@ -90,8 +90,12 @@ FamilyA == [temp : Temps, gas1 : Gases, gas2 : Gases, model : Models, press : Pr
 FamilyB == [temp : Temps, gas1 : Gases, gas2 : Gases, model : Models, press : {"simple"}, chem : ChemForms,
             contribs : {<<"Absorption">>, <<"Absorption", "Rayleigh">>}, binning : {"none"}, fit : {"radius", "gas"},
             absent : {{}}, mkeys : {{}}, inst : {"none"}]
-FamilyC == {a \in [temp : {"isothermal"}, gas1 : {"constant"}, gas2 : {"constant"}, model : Models, press : {"simple"},
-                    chem : {PlainForm("taurex")}, contribs : {<<"Absorption", "Rayleigh">>}, binning : {"none"}, fit : {"none"},
+\* one selector per section that resolves (the usual one if it does: an ambiguous selector is reported by UniqueResolution)
+Resolving(kind, S, usual) == IF One(kind, "value", usual) # "" \/ ~(\E x \in S : One(kind, "value", x) # "") THEN usual
+                             ELSE CHOOSE x \in S : One(kind, "value", x) # ""
+FamilyC == {a \in [temp : {Resolving("temperature", Temps, "isothermal")}, gas1 : {Resolving("gas", Gases, "constant")},
+                    gas2 : {Resolving("gas", Gases, "constant")}, model : Models, press : {Resolving("pressure", Press, "simple")},
+                    chem : {PlainForm(Resolving("chemistry", Chems, "taurex"))}, contribs : {<<"Absorption", "Rayleigh">>}, binning : {"none"}, fit : {"none"},
                     absent : SUBSET OptSections, mkeys : SUBSET LayerKeys, inst : {"none", "snr"}] :
                 a.inst = "snr" => a.mkeys = {}}
 Init == asm \in FamilyA \cup FamilyB \cup FamilyC
